@@ -3,6 +3,7 @@ package core
 import (
 	"errors"
 	"fmt"
+	"strconv"
 	"strings"
 
 	"github.com/truora/minidyn/types"
@@ -32,7 +33,7 @@ func (ks keySchema) getKeyValue(attrs map[string]string, item map[string]*types.
 		return "", err
 	}
 
-	hashKeyStr := fmt.Sprintf("%v", val)
+	hashKeyStr := renderKeyPart(val, attrs[ks.HashKey])
 
 	if ks.RangeKey == "" {
 		return hashKeyStr, nil
@@ -45,9 +46,81 @@ func (ks keySchema) getKeyValue(attrs map[string]string, item map[string]*types.
 		return "", err
 	}
 
-	key = append(key, fmt.Sprintf("%v", val))
+	key = append(key, renderKeyPart(val, attrs[ks.RangeKey]))
 
 	return strings.Join(key, "."), nil
+}
+
+// renderKeyPart renders a key attribute value so that equal values have equal renderings and
+// the renderings sort like the values: numbers by numeric value whatever their notation
+// ("1", "1.0" and "1e0" are the same key)
+func renderKeyPart(val interface{}, typ string) string {
+	switch v := val.(type) {
+	case string:
+		if typ == "N" {
+			return encodeNumberKey(v)
+		}
+	}
+
+	return fmt.Sprintf("%v", val)
+}
+
+// encodeNumberKey encodes a decimal numeral as sign, exponent and significant digits in a
+// form whose lexicographic order is the numeric order. Numerals it cannot parse are kept as
+// they are.
+func encodeNumberKey(numeral string) string {
+	s := numeral
+	negative := false
+
+	if strings.HasPrefix(s, "-") || strings.HasPrefix(s, "+") {
+		negative = s[0] == '-'
+		s = s[1:]
+	}
+
+	exponent := 0
+
+	if pos := strings.IndexAny(s, "eE"); pos >= 0 {
+		exp, err := strconv.Atoi(s[pos+1:])
+		if err != nil {
+			return numeral
+		}
+
+		exponent = exp
+		s = s[:pos]
+	}
+
+	intPart, fracPart := s, ""
+	if pos := strings.IndexByte(s, '.'); pos >= 0 {
+		intPart, fracPart = s[:pos], s[pos+1:]
+	}
+
+	digits := intPart + fracPart
+	if digits == "" || strings.Trim(digits, "0123456789") != "" {
+		return numeral
+	}
+
+	// value = 0.digits * 10^exponent
+	exponent += len(intPart)
+
+	trimmed := strings.TrimLeft(digits, "0")
+	exponent -= len(digits) - len(trimmed)
+	trimmed = strings.TrimRight(trimmed, "0")
+
+	if trimmed == "" {
+		return "O"
+	}
+
+	if !negative {
+		return fmt.Sprintf("P%04d%s", exponent+5000, trimmed)
+	}
+
+	// negative numbers sort in the reverse order of their magnitude: nines' complement
+	complement := []byte(fmt.Sprintf("%04d%s", exponent+5000, trimmed))
+	for i, c := range complement {
+		complement[i] = '0' + ('9' - c)
+	}
+
+	return "M" + string(complement) + "~"
 }
 
 // escapeKeyPart escapes the separator used to join the hash and range renderings, so that
